@@ -771,6 +771,21 @@ namespace svmon
       cov.count ("c05.strong-cases");
       check_unchanged (op.t, std_specified && ! (op_has_range (op.kind) && it_is_stream (op.itk)));
       if (src_too && op.s != op.t) check_unchanged (op.s, false);
+      // "... and nothing leaked": every element object and every block created by the failed call is gone again
+      if (feat.tracked)
+      {
+        long expect = 0;
+        for (int i = 0; i < NSLOT; ++i) if (info[i].live) expect += static_cast<long> (post[i].size);
+        if (REG ().live != expect)
+          violate ("C05", "strong.leaked-elements", "%ld element object(s) alive after the failed call but the containers hold %ld", REG ().live, expect);
+      }
+      if (feat.ledgered)
+      {
+        long heap = 0;
+        for (int i = 0; i < NSLOT; ++i) if (info[i].live && ! post[i].inlined) ++heap;
+        if (LEDGER ().live != heap)
+          violate ("C05", "strong.leaked-block", "%ld block(s) allocated after the failed call but %ld container(s) are on the heap", LEDGER ().live, heap);
+      }
     }
 
     void check_unchanged (int slot, bool with_addresses)
